@@ -50,6 +50,7 @@ type TxInfo struct {
 	KIn      []KIn
 	KOut     []KOut
 	Prog     string
+	BadSig   bool // its signature does not verify: every block carrying it is refused at play / walk
 }
 type BlockInfo struct {
 	Idx    int
